@@ -1931,21 +1931,21 @@ class StridedInterval:
                 n &= n - 1
             return ctr
 
-        # Optimization: if one of the two intervals is an integer and contains only one one we can be precise
+        # Optimization: if one of the two intervals is the sign bit we can be precise
         for a, b in [[s, t], [t, s]]:
-            if a.is_integer and number_of_ones(a.lower_bound) == 1 and a.lower_bound == (1 << (t.bits - 1)):
+            if a.is_integer and not b.is_empty and a.lower_bound == (1 << (t.bits - 1)):
                 # It's testing the sign bit
                 stride = 1 << (a.bits - 1)
                 if b.is_integer:
-                    if b.lower_bound == stride:
-                        return StridedInterval(bits=b.bits, stride=0, lower_bound=stride, upper_bound=stride)
+                    sign_bit = b.lower_bound & stride
+                    return StridedInterval(bits=b.bits, stride=0, lower_bound=sign_bit, upper_bound=sign_bit)
+                # each part of `b` cut at both poles lies in one hemisphere
+                signs = {StridedInterval._get_msb(part.lower_bound, part.bits) for part in b._psplit()}
+                if signs == {0}:
                     return StridedInterval(bits=b.bits, stride=0, lower_bound=0, upper_bound=0)
-                is_sol = (
-                    a.lower_bound - b.lower_bound
-                ) % b.stride == 0 and b.lower_bound <= a.lower_bound <= b.upper_bound
-                if is_sol:
-                    return StridedInterval(bits=b.bits, stride=stride, lower_bound=0, upper_bound=stride)
-                return StridedInterval(bits=b.bits, stride=0, lower_bound=0, upper_bound=0)
+                if signs == {1}:
+                    return StridedInterval(bits=b.bits, stride=0, lower_bound=stride, upper_bound=stride)
+                return StridedInterval(bits=b.bits, stride=stride, lower_bound=0, upper_bound=stride)
             # FIXME: implement case only one 1 not in first position
 
         # paper's and
